@@ -6,6 +6,7 @@ import (
 	"github.com/anz-bank/sysl/pkg/eval"
 	"github.com/anz-bank/sysl/pkg/sysl"
 	"github.com/anz-bank/sysl/pkg/syslutil"
+	"github.com/sirupsen/logrus"
 )
 
 type semantic struct {
@@ -22,6 +23,10 @@ type semantic struct {
 func (t *semantic) Apply(mod *sysl.Module, appNames ...string) map[string]*sysl.Value {
 	output := map[string]*sysl.Value{}
 	for _, name := range appNames {
+		if mod.GetApps()[name] == nil {
+			logrus.Warnf("app %q does not exist in the model, skipped", name)
+			continue
+		}
 		filenamesData := createScope(t.filenames, mod, mod.Apps[name])
 		outputData := createScope(t.view, mod, mod.Apps[name])
 
